@@ -174,9 +174,9 @@ Example C18_example :
   print_items ex_layout = zs " " ++ [12288; 10] ++ zs "// x" ++ [10] ++ zs "///d" ++ [10] ++ zs "/* " ++ [10] ++ zs "* */"
                           ++ zs "/**x*/##c" ++ [10] ++ zs "# c" ++ [10] ++ zs "#--" ++ [10; 124; 59; 9; 13] /\
   items_toks 0 ex_layout = [TLineNo 1; TComment; TComment] /\
-  (exists ls', lex (mkLex 96 [] [] []) (print_items ex_layout ++ zs "c") 0
+  (exists ls', lex (mkLex 96 [] [] [] false) (print_items ex_layout ++ zs "c") 0
      = Ok ([TLineNo 0; TLineNo 1; TComment; TComment; TNote 0 0 0 [] 0 (-1) ISIZE_MIN (-1) 0], ls')) /\
-  (exists ls', lex (mkLex 96 [] [] []) ([65347] ++ zs "4") 0 = Ok ([TLineNo 0; TNote 0 0 0 (zs "4") 0 (-1) ISIZE_MIN (-1) 0], ls')).
+  (exists ls', lex (mkLex 96 [] [] [] false) ([65347] ++ zs "4") 0 = Ok ([TLineNo 0; TNote 0 0 0 (zs "4") 0 (-1) ISIZE_MIN (-1) 0], ls')).
 Proof. repeat split; try (vm_compute; reflexivity); eexists; vm_compute; reflexivity. Qed.
 
 (* ================================================================================================== *)
